@@ -9,7 +9,8 @@
   puts them together.
 -/
 import ClockBound.Proofs.RsNow
-import ClockBound.Proofs.RsLoop
+import ClockBound.Proofs.RsTurn
+import ClockBound.Rs.EmbedTurn
 namespace ClockBound.Rs.PollerProof
 open ClockBound ClockBound.Rs ClockBound.Generated ClockBound.Rs.DictPoller ClockBound.Rs.NowProof
 
@@ -19,41 +20,61 @@ abbrev frP : Frame := ⟨"chrony_poller", "", "()"⟩
 /-- the PHC configuration an iteration sees -/
 abbrev phcOf (refid : Option Nat) (file : PhcFile) : Option PhcCfg := refid.map fun r => ⟨r, file⟩
 
-/-- one iteration of the loop body from the loop state with poller state `s`: whatever the loop does next
-    (`next`), it does it from the loop state with the model's new poller state, the events of `pollTrace`
-    appended to the log and as many inputs consumed; `keep_running` is false iff `recv_timeout` returned
-    `Ok(ThreadAbort)`; where the model's message is `panic` the thread panics -/
+/-- the state at the top of the loop of `run_clock_error_bound_poller` with poller state `s` -/
+abbrev topP (nowNs : Int) (inp : Nat → Value) (pre : List Stmt) (e : IterEnv) (s : PollerState) (refid : Option Nat)
+    (log : List Value) (pos : Nat) : St :=
+  topSt (ctxP nowNs [] inp) Code.fn_chrony_poller__run_clock_error_bound_poller (pollerArgs e s refid) pre log pos
+
+/-- ONE TURN of the loop of `run_clock_error_bound_poller` (however it is written: `findLoop`) from its top state
+    with poller state `s`: the thread panics where the model's message is `panic`; else, the events of `pollTrace`
+    appended to the log and as many inputs consumed, the loop is over if `recv_timeout` returned `Ok(ThreadAbort)`
+    and otherwise goes on from the top state with the model's new poller state -/
 def IterStmt (e : IterEnv) (s : PollerState) (coarse : TimeSpec) (reply : ReplyKind) (tReply tGrace : Int)
     (refid : Option Nat) (file : PhcFile) : Prop :=
-  ∀ (nowNs : Int) (inp : Nat → Value) (log : List Value) (pos : Nat) (c : Expr) (body : List Stmt)
-    (_hfw : findWhile Code.fn_chrony_poller__run_clock_error_bound_poller_stmts = some (c, body))
+  ∀ (nowNs : Int) (inp : Nat → Value) (log : List Value) (pos : Nat) (pre : List Stmt) (c : Expr) (body : List Stmt)
+    (_hfl : findLoop Code.fn_chrony_poller__run_clock_error_bound_poller_stmts = some (pre, c, body))
     (_hother : e.other ≠ "ReplyBody::Tracking") (_hsend : e.sendRes = okUnit)
     (_hin : inputsAt inp pos ((pollTrace s coarse reply tReply tGrace (phcOf refid file)).map (pollEvInput e)))
-    (N : Nat) (_hN : 60 ≤ N) (next : St → Res),
-    ((evalBlock N (ctxP nowNs [] inp) frP body (pollerLoopSt e true s refid log pos)).popTo 5).loopNext next
-    = if (pollStep s coarse reply tReply tGrace (phcOf refid file)).2 = .panic then .panic
-      else next (pollerLoopSt e (!e.isAbort) (pollStep s coarse reply tReply tGrace (phcOf refid file)).1 refid
-        (log ++ (pollTrace s coarse reply tReply tGrace (phcOf refid file)).map (pollEvValue e))
-        (pos + (pollTrace s coarse reply tReply tGrace (phcOf refid file)).length))
+    (K : Nat) (_hK : 60 ≤ K),
+    turnIs (ctxP nowNs [] inp) frP c body K
+      (evalWhile (K + 2) (ctxP nowNs [] inp) frP c body (topP nowNs inp pre e s refid log pos))
+      (if (pollStep s coarse reply tReply tGrace (phcOf refid file)).2 = .panic then .panic
+       else if e.isAbort = true then
+         .done (log ++ (pollTrace s coarse reply tReply tGrace (phcOf refid file)).map (pollEvValue e))
+           (pos + (pollTrace s coarse reply tReply tGrace (phcOf refid file)).length)
+       else .next (topP nowNs inp pre e (pollStep s coarse reply tReply tGrace (phcOf refid file)).1 refid
+          (log ++ (pollTrace s coarse reply tReply tGrace (phcOf refid file)).map (pollEvValue e))
+          (pos + (pollTrace s coarse reply tReply tGrace (phcOf refid file)).length)))
+
+-- the embeddings that the evaluation of a turn unfolds
+macro "poll_simp" : tactic => `(tactic| (
+  simp (maxSteps := 400000) [rs_eval, rs_code, pollerArgs, pollerValue, contextValue, okTimespec, ctimespecValue,
+    optPhcValue, trackingValue, IterEnv.recvRes, IterEnv.isAbort, pollStep, pollTrace, pollEvValue, pollMsgValue,
+    replyValue, phcFileValue, PollerState.withinGrace, Poller.elapsed, GRACE_NS, PhcFile.read, Nat.add_assoc,
+    turnIs_ite, turnIs_panic, turnIs_done, turnIs_next, *]))
 
 set_option hygiene false in
 macro "iter_start" : tactic => `(tactic| (
-  intro nowNs inp log pos c body hfw hother hsend hin N hN next
-  obtain ⟨M, rfl⟩ : ∃ M, N = M + 60 := ⟨N - 60, by omega⟩
-  simp [rs_eval, rs_code] at hfw
-  obtain ⟨rfl, rfl⟩ := hfw
-  simp only [ctxP, linuxUses_eq]
-  simp [pollTrace, inputsAt, pollEvInput, replyValue, phcFileValue, PhcFile.read, *] at hin))
+  intro nowNs inp log pos pre c body hfl hother hsend hin K hK
+  obtain ⟨M, rfl⟩ : ∃ M, K = M + 60 := ⟨K - 60, by omega⟩
+  simp [rs_eval, rs_code] at hfl
+  obtain ⟨rfl, rfl, rfl⟩ := hfl
+  simp only [ctxP, topP, linuxUses_eq]
+  simp [pollTrace, inputsAt, pollEvInput, replyValue, phcFileValue, PhcFile.read, *] at hin
+  -- the condition of the loop holds at its top (the flag is set / `loop`): one run of the body
+  rw [evalWhile_true (h := by
+    simp [rs_eval, rs_code, pollerArgs, pollerValue, contextValue, optPhcValue])]))
 
-macro "poll_tie" : tactic => `(tactic| (
-  simp (maxSteps := 400000) [rs_eval, rs_code, pollerLoopSt, pollerValue, contextValue, okTimespec, ctimespecValue,
-    optPhcValue, trackingValue, IterEnv.recvRes, IterEnv.isAbort, pollStep, pollTrace, pollEvValue, pollMsgValue,
-    replyValue, phcFileValue, PollerState.withinGrace, Poller.elapsed, GRACE_NS, PhcFile.read, Nat.add_assoc, *]))
+macro "poll_tie" : tactic => `(tactic| poll_simp)
 
--- the tests that remain: the `recv_timeout` result, the grace comparison
+-- the tests that remain: the `recv_timeout` result, the grace comparison; when the loop is over because a flag was
+-- cleared, one more evaluation of its condition
 set_option hygiene false in
 macro "poll_finish" : tactic => `(tactic| (
-  cases hrecvOk : e.recvOk <;> simp [rs_eval, hrecvOk] <;> split_ifs <;> simp_all [rs_eval]))
+  cases hrecvOk : e.recvOk <;> simp [rs_eval, hrecvOk] <;> split_ifs <;>
+    first
+    | (simp_all [rs_eval]; done)
+    | (rw [evalWhile_false (h := by simp [rs_eval])]; simp_all [rs_eval, St.popTo]; done)))
 
 set_option maxRecDepth 8000 in
 set_option maxHeartbeats 4000000 in
